@@ -513,6 +513,9 @@ func (x *World) inCallback(o int, e ecs.Entity, ptrs []unsafe.Pointer) *Violatio
 		// reported under C08 by the event multiset; do not double report here
 		return nil
 	}
+	if x.Or.InCbPtr {
+		return x.checkCallbackPointers(spec, op, e, ptrs)
+	}
 	// lock state
 	wantLocked := pre || x.curRes.LockedCb && isBatch(op.K) || x.preM.Locked()
 	if got := x.W.IsLocked(); got != wantLocked {
@@ -550,20 +553,25 @@ func (x *World) inCallback(o int, e ecs.Entity, ptrs []unsafe.Pointer) *Violatio
 	if n != ref.NumAlive() {
 		return x.viol("callback-query", "%v: in %s callback a Filter0 query visits %d entities, %d are alive %s the change", *op, model.EvNames[spec.Event], n, ref.NumAlive(), when)
 	}
-	// typed observers: pointers address the entity's components
-	if len(spec.Params) > 0 {
-		u := x.W.Unsafe()
-		for k, c := range spec.Params {
-			if k >= len(ptrs) {
-				break
-			}
-			var want unsafe.Pointer
-			if u.Has(e, x.Env.ID(c)) {
-				want = u.Get(e, x.Env.ID(c))
-			}
-			if ptrs[k] != want {
-				return x.viol("callback", "%v: typed %s callback pointer %d (%s) = %p, random access returns %p", *op, model.EvNames[spec.Event], k, c, ptrs[k], want)
-			}
+	return x.checkCallbackPointers(spec, op, e, ptrs)
+}
+
+// checkCallbackPointers: typed observers receive pointers that address the reported entity's components.
+func (x *World) checkCallbackPointers(spec *model.ObsSpec, op *model.Op, e ecs.Entity, ptrs []unsafe.Pointer) *Violation {
+	if len(spec.Params) == 0 {
+		return nil
+	}
+	if len(ptrs) != len(spec.Params) {
+		return x.viol("callback", "%v: typed %s callback got %d pointers for %d parameters", *op, model.EvNames[spec.Event], len(ptrs), len(spec.Params))
+	}
+	u := x.W.Unsafe()
+	for k, c := range spec.Params {
+		var want unsafe.Pointer
+		if u.Has(e, x.Env.ID(c)) {
+			want = u.Get(e, x.Env.ID(c))
+		}
+		if ptrs[k] != want {
+			return x.viol("callback", "%v: typed %s callback pointer %d (%s) = %p, random access returns %p", *op, model.EvNames[spec.Event], k, c, ptrs[k], want)
 		}
 	}
 	return nil
